@@ -263,7 +263,7 @@ func TestC20Shares(t *testing.T) {
 		}
 		vlib.Selftest("C20 white-box: Gaussian elimination mod r", "ok")
 	}
-	vlib.Check(t, vlib.N(150, 1500), func(t *rapid.T) {
+	vlib.Check(t, vlib.N(150, 800), func(t *rapid.T) {
 		leaves := rapid.SampledFrom([]int{1, 2, 2, 3, 3, 4, 4, 5, 6}).Draw(t, "leaves")
 		next := 0
 		tree := c20Gen(t, leaves, &next)
